@@ -193,6 +193,20 @@ def programs(rng, tier):
         vs = ["L"] + [str(x) for x in xs]
         for k in sorted({rng.randrange(2, len(xs) - 1), len(xs) // 2, len(xs) - 1, len(xs), len(xs) + 1}):
             P.add([rng.choice(["mk_sat_exactly", "mk_sat_upto"]), str(nv), str(k), vs])
+    # threshold storms: BOTH constructors called one after the other inside one program (one worker thread) with the SAME variable
+    # list and rising, falling and repeated thresholds: a layer remembered from the previous call under a key that leaves out the
+    # constructor (or the threshold it was built for) turns `exactly k` into `up to k` or the reverse
+    for _ in range(150 if tier == "quick" else 3000):
+        nv = rng.choice([3, 4, 5, 6, 8])
+        xs = rng.sample(range(nv), rng.randrange(1, nv + 1))
+        vs = ["L"] + [str(x) for x in xs]
+        ks = [rng.randrange(0, len(xs) + 2) for _ in range(rng.choice([2, 3, 4, 5]))]
+        mode = rng.choice(["rising", "falling", "any"])
+        ks = sorted(ks) if mode == "rising" else sorted(ks, reverse=True) if mode == "falling" else ks
+        first = rng.choice(["mk_sat_exactly", "mk_sat_upto"])
+        other = "mk_sat_upto" if first == "mk_sat_exactly" else "mk_sat_exactly"
+        P.add_prog([["t%d" % i, (first if i % 2 == 0 else other) if rng.random() < 0.8 else rng.choice([first, other]), str(nv), str(k), vs]
+                    for i, k in enumerate(ks)])
     # a listed variable outside the set: outside the quantifier, recorded only
     # thresholds far above the list length, around the u16 boundary (the library iterates k rounds: keep these few)
     for k in ((65535, 65536, 65537) if tier == "quick" else (65535, 65536, 65537, 65538, 131072, 131073, 70000)):
